@@ -158,6 +158,17 @@ func c08edits(doc *jmut.Node) []c08edit {
 				if d.Replace(p, v) {
 					out = append(out, c08edit{"alter-" + kind, p, d})
 				}
+				if x.K == jmut.Num && x.Num != "" && strings.Trim(x.Num, "-0.eE+") != "" {
+					// the same number with the other sign
+					neg := "-" + x.Num
+					if strings.HasPrefix(x.Num, "-") {
+						neg = x.Num[1:]
+					}
+					d2 := doc.Clone()
+					if d2.Replace(p, jmut.N(neg)) {
+						out = append(out, c08edit{"alter-negate", p, d2})
+					}
+				}
 				if kind == "string" && len(x.S) > 2 {
 					// also change the last character, so that both ends of any special character are edited
 					b := []rune(x.S)
@@ -181,6 +192,19 @@ func c08edits(doc *jmut.Node) []c08edit {
 					a := d.At(p)
 					a.A[i], a.A[i+1] = a.A[i+1], a.A[i]
 					out = append(out, c08edit{"swap", p, d})
+					break
+				}
+			}
+			// one element said twice (first and last are tried)
+			for _, i := range []int{0, len(x.A) - 1} {
+				if i < 0 {
+					continue
+				}
+				d := doc.Clone()
+				a := d.At(p)
+				a.A = append(append(append([]*jmut.Node{}, a.A[:i+1]...), a.A[i].Clone()), a.A[i+1:]...)
+				out = append(out, c08edit{"repeat-element", p, d})
+				if len(x.A) == 1 {
 					break
 				}
 			}
@@ -284,6 +308,36 @@ func runC08(c *Ctx) {
 				sel = append(sel, bigByRegime[r])
 			}
 		}
+		// every addon is represented (its smallest envelope), and so is every distinct
+		// list of two or more addons: what calculation derives from such lists must not
+		// be re-derived when a received document is validated (§10.10)
+		smallest := map[string]corpus.Item{}
+		for _, it := range items {
+			keys := append([]string{}, it.Addons...)
+			if len(it.Addons) > 1 {
+				keys = append(keys, strings.Join(it.Addons, "+"))
+			}
+			for _, k := range keys {
+				if cur, ok := smallest[k]; !ok || len(it.Data) < len(cur.Data) {
+					smallest[k] = it
+				}
+			}
+		}
+		var aks []string
+		for k := range smallest {
+			aks = append(aks, k)
+		}
+		sort.Strings(aks)
+		have := map[string]bool{}
+		for _, it := range sel {
+			have[it.Rel] = true
+		}
+		for _, k := range aks {
+			if it := smallest[k]; !have[it.Rel] {
+				have[it.Rel] = true
+				sel = append(sel, it)
+			}
+		}
 	}
 	// envelopes whose text fields carry characters that need care in canonical JSON
 	hostile := []string{"Pay in 30 days\u2028to account", "first\u2029second", "tab\there \"quoted\" back\\slash", "emoji 😀 tail", "ctl\u0001\u001fend", "é ñ ü ß 日本", "<b>&amp;</b>", "del\u007f\u0080nbsp\u00a0x", "zw\u200bj\ufeffbom", "astral 𐀀 \U0010FFFF end", "a/b\\/c", "line\nbreak\r\nend"}
@@ -320,7 +374,9 @@ func runC08(c *Ctx) {
 			}
 			addrs.A[0].Set("coords", coords("40.41677541234567", "-3.7037901234567891"))
 			addrs.A = append(addrs.A, jmut.O(jmut.Member{Key: "locality", Val: jmut.S("Elsewhere")}, jmut.Member{Key: "coords", Val: coords("0.1", "1.0e-7")}),
-				jmut.O(jmut.Member{Key: "locality", Val: jmut.S("Far")}, jmut.Member{Key: "coords", Val: coords("-89.99999999999999", "179.99999999999997")}))
+				jmut.O(jmut.Member{Key: "locality", Val: jmut.S("Far")}, jmut.Member{Key: "coords", Val: coords("-89.99999999999999", "179.99999999999997")}),
+				jmut.O(jmut.Member{Key: "locality", Val: jmut.S("West")}, jmut.Member{Key: "coords", Val: coords("-0.5", "-2e-7")}),
+				jmut.O(jmut.Member{Key: "locality", Val: jmut.S("Greenwich")}, jmut.Member{Key: "coords", Val: coords("51.5", "-0.07")}))
 		}
 		env, err := gx.ParseEnvelope(n.Bytes())
 		if err != nil {
@@ -350,6 +406,12 @@ func runC08(c *Ctx) {
 		if _, perr, verr, pan := validateBytes(it.Data); perr != nil || verr != nil || pan != nil {
 			c.R.Fail("golden-invalid:"+it.Rel, fmt.Sprintf("golden envelope does not validate: %v %v %v", perr, verr, pan), it.Rel)
 			continue
+		}
+		if rd, ok := refDigestOfEnvelope(it.Data); ok {
+			c.R.Count("golden_digests_compared_with_reference", 1)
+			if hd := env.Get("head"); hd != nil && hd.Get("dig") != nil && hd.Get("dig").Get("val") != nil && hd.Get("dig").Get("val").S != rd {
+				c.R.Fail("golden-digest-differs-from-reference", fmt.Sprintf("%s: header digest %s, reference canonical form of the document hashes to %s", it.Rel, hd.Get("dig").Get("val").S, rd), it.Rel)
+			}
 		}
 		for _, e := range c08edits(env.Get("doc")) {
 			jobs = append(jobs, job{it, env, e})
@@ -413,7 +475,12 @@ func runC08(c *Ctx) {
 		// did the logical content change? the parsed document re-serialised must differ from the original's
 		origEnv, _ := gx.ParseEnvelope(j.it.Data)
 		ob, _ := json.Marshal(origEnv.Document)
+		// (the edited text is parsed once more for this: validation has already run on
+		// env and must not be what maps an edit back to the original content, §10.10)
 		nb, _ := json.Marshal(env.Document)
+		if fresh, ferr := gx.ParseEnvelope(b); ferr == nil {
+			nb, _ = json.Marshal(fresh.Document)
+		}
 		if string(ob) == string(nb) {
 			// the parser maps the edit back to the same content (e.g. removed $regime re-derived,
 			// removed member that is recomputed while parsing): content-preserving, must keep validating
@@ -520,6 +587,15 @@ func runC08(c *Ctx) {
 				if env2.Head.Digest.Value == origEnv.Head.Digest.Value {
 					c.R.Fail("digest-collision:"+cls, fmt.Sprintf("%s: %s at %s: recalculated document differs but the digest is unchanged", j.it.Rel, e.kind, e.path), wit)
 				}
+				// and it is the digest the harness's own canonicaliser gives that document
+				if eb, merr := json.Marshal(env2); merr == nil {
+					if rd, ok := refDigestOfEnvelope(eb); ok {
+						c.R.Count("recalculated_digests_compared_with_reference", 1)
+						if rd != env2.Head.Digest.Value {
+							c.R.Fail("digest-differs-from-reference:"+cls, fmt.Sprintf("%s: %s at %s, recalculated: header digest %s, reference canonical form hashes to %s", j.it.Rel, e.kind, e.path, env2.Head.Digest.Value, rd), wit)
+						}
+					}
+				}
 			} else {
 				c.R.Count("recalculated_back_to_original", 1)
 			}
@@ -563,5 +639,5 @@ func runC08(c *Ctx) {
 			}
 		}
 	})
-	c.Require("recalculated_through_insert", "detected_with_key:digest", "edits_parsed:alter-float-next", "reused_target_decodes", "cli_verify_runs", "reencodings:shuffle")
+	c.Require("recalculated_digests_compared_with_reference", "edits_parsed:alter-negate", "recalculated_through_insert", "detected_with_key:digest", "edits_parsed:alter-float-next", "reused_target_decodes", "cli_verify_runs", "reencodings:shuffle")
 }
